@@ -231,6 +231,14 @@ func newestCreated(s *kmodel.Store, od string) (kmodel.Key, bool) {
 // Invariant: revisions unique and greater than those of the previous list.
 func Invariant(w *world.World) []world.Finding {
 	var out []world.Finding
+	// "the collision counter is bumped and a fresh ObjectSet is created": a bump changes the name,
+	// so each bump gets past one occupied name. These systems hold a handful of ObjectSets; a
+	// counter that has left them far behind is bumping without ever arriving at a free name.
+	if od := w.S.Objs[osw.ODKey(odName)]; od != nil {
+		if n := collisionCount(od.Content); n > int64(len(osw.ObjectSetsOf(w.S, odName))+4) {
+			out = append(out, world.Finding{Monitor: "revisions", Identity: "collision-counter-runs-away", Message: fmt.Sprintf("the deployment's collision counter is at %d with %d ObjectSets in existence: name clashes keep being answered with a bump that never leads to a fresh ObjectSet", n, len(osw.ObjectSetsOf(w.S, odName)))})
+		}
+	}
 	seen := map[int64]string{}
 	for _, k := range osw.ObjectSetsOf(w.S, odName) {
 		c := w.S.Objs[k].Content
@@ -275,10 +283,14 @@ type scenario struct {
 	// LongName: the deployment's name is 63 characters long (the longest that works at all: it is
 	// stamped as a label value on its ObjectSets)
 	LongName bool `json:"longName"`
+	// OSDisturb: the revisions themselves are disturbed - a fault may hit any request of an
+	// ObjectSet's own pass (fault budget), and a third party may delete an ObjectSet (once), which
+	// then stays terminating behind its finalizer until its controller is done with it
+	OSDisturb bool `json:"objectSetsDisturbed"`
 }
 
 func (sc scenario) name() string {
-	return fmt.Sprintf("deployment edits=%d faults=%d stale=%d clash=%s pauses=%d longName=%v", sc.Edits, sc.Faults, sc.Stale, sc.Clash, sc.Pause, sc.LongName)
+	return fmt.Sprintf("deployment edits=%d faults=%d stale=%d clash=%s pauses=%d longName=%v objectSetsDisturbed=%v", sc.Edits, sc.Faults, sc.Stale, sc.Clash, sc.Pause, sc.LongName, sc.OSDisturb)
 }
 
 func currentTemplate(w *world.World) string {
@@ -353,6 +365,9 @@ func system(sc scenario) *world.System {
 			w.Budget["conflict"] = sc.Conflicts
 			w.Budget["stale"] = sc.Stale
 			w.Budget["user-pause"] = sc.Pause
+			if sc.OSDisturb {
+				w.Budget["os-delete"] = 1
+			}
 			return w
 		},
 		Events: func(w *world.World) []world.Event {
@@ -402,6 +417,19 @@ func system(sc scenario) *world.System {
 				}
 			}
 			evs = append(evs, osw.FaultEvents(w, world.CtrlObjectDeployment, odName, []world.FaultKind{world.ErrBefore, world.LostResponse, world.Crash})...)
+			if sc.OSDisturb {
+				for _, k := range osw.ObjectSetsOf(w.S, odName) {
+					k := k
+					evs = append(evs, osw.FaultEvents(w, world.CtrlObjectSet, k.Name, []world.FaultKind{world.ErrBefore})...)
+					if w.Budget["os-delete"] > 0 && !kmodel.Terminating(w.S.Objs[k].Content) {
+						evs = append(evs, world.Event{Name: "third-party:delete-objectset:" + k.Name, Apply: func(w *world.World) *world.Pass {
+							w.Budget["os-delete"]--
+							_ = w.S.Delete(k, kmodel.DeleteOpts{})
+							return nil
+						}})
+					}
+				}
+			}
 			evs = append(evs, osw.ConflictEvents(w, world.CtrlObjectDeployment, odName)...)
 			if w.Budget["stale"] > 0 {
 				// the one staleness the code handles: the List does not yet show an ObjectSet that a
@@ -446,6 +474,7 @@ func scenarios(quick bool) []scenario {
 		{Edits: 2, Conflicts: 1},
 		{Edits: 1, Pause: 2},
 		{Edits: 2, LongName: true},
+		{Edits: 1, Faults: 1, OSDisturb: true},
 	}
 	if !quick {
 		out = append(out, scenario{Edits: 3, Faults: 1, Stale: 1}, scenario{Edits: 3, Pause: 2}, scenario{Edits: 2, Faults: 2}, scenario{Edits: 2, Conflicts: 2, Stale: 1}, scenario{Edits: 2, Clash: "archived", Faults: 1, Stale: 1})
@@ -455,7 +484,7 @@ func scenarios(quick bool) []scenario {
 
 func run(o checks.Opts) *report.Report {
 	rep := report.New("C07", "bfs")
-	rep.Rule = "explicit-state BFS: ObjectDeployment d with templates T1{a,b}, T2{a,c}, E(no phases); events = user edits between templates (incl. reverting), reconcile(ObjectDeployment) and reconcile(each ObjectSet) in any order, every fault kind (error before effect, lost response, crash) at every request of the deployment's pass, another actor's write landing before each write of the pass (update conflict), a deployment pass whose List misses the most recently created ObjectSet, pause/unpause, pre-seeded name clashes (archived / different spec / foreign controller), one system whose deployment name is 63 characters long; monitor on every deployment pass + state invariant on revision numbers"
+	rep.Rule = "explicit-state BFS: ObjectDeployment d with templates T1{a,b}, T2{a,c}, E(no phases); events = user edits between templates (incl. reverting), reconcile(ObjectDeployment) and reconcile(each ObjectSet) in any order, every fault kind (error before effect, lost response, crash) at every request of the deployment's pass, another actor's write landing before each write of the pass (update conflict), a deployment pass whose List misses the most recently created ObjectSet, pause/unpause, pre-seeded name clashes (archived / different spec / foreign controller), one system whose deployment name is 63 characters long, one in which a fault may hit any request of an ObjectSet's own pass and a third party may delete an ObjectSet (which stays terminating behind its finalizer); monitor on every deployment pass + state invariant on revision numbers"
 	scs := scenarios(o.Quick())
 	rep.Bounds["systems"] = len(scs)
 	for i, sc := range scs {
@@ -503,9 +532,9 @@ func init() {
 		},
 		Subs: []*checks.Sub{{Name: "bfs", Shards: func(t string) int {
 			if t == "thorough" {
-				return 13
+				return 14
 			}
-			return 8
+			return 9
 		}, Run: run, Replay: replay, Parallel: true},
 			{Name: "histories", Shards: func(string) int { return 8 }, Run: runHistories, Replay: replayHistory},
 			twin.Sub("C07", twinScenarios)},
